@@ -11,8 +11,8 @@ import (
 // RaceReport is one "WARNING: DATA RACE" block of the race detector's log.
 type RaceReport struct {
 	Text      string
-	Signature string // outermost library frames of the two accesses, line numbers stripped
-	InLibrary bool   // some frame is in the library under test
+	Signature string   // outermost library frames of the two accesses, line numbers stripped
+	InLibrary bool     // some frame is in the library under test
 	Addrs     []uint64 // the racing memory addresses
 }
 
